@@ -162,6 +162,22 @@ def insitu_case(ctx, idx, rng):
     ctx.event('insitu_qr_calls', len(calls))
 
 
+def soak_case(ctx, idx, rng):
+    """The repository's own test-suite with the full QR oracle attached to every call of bond_ops.qr (real call sites, the tests' own data)."""
+    from .. import soak
+    calls = []
+
+    def around(orig, A, q0, q1):
+        snap = oracles.snapshot_arrays(A, q0, q1)
+        res = orig(A, q0, q1)
+        calls.append(1)
+        oracles.check_qr(ctx, snap[0], np.asarray(snap[1]), np.asarray(snap[2]), (A, q0, q1), res, in_situ=True)
+        return res
+    ctx.case(('soak', 'repository-test-suite'), sample={'functions_monitored': ['pytenet.bond_ops.qr']})
+    soak.run_suite(ctx, [('pytenet.bond_ops.qr', around)])
+    ctx.event('soak_qr_calls', len(calls))
+
+
 SPEC = {
     'id': 'C11',
     'rule': ('exhaustive: every charge vector in {0,1,2}^(m+n) for all shapes m,n<=3 (quick) / <=4 (thorough), each with '
@@ -177,6 +193,7 @@ SPEC = {
                  exhaustive={'space': 'all q in {0,1,2}^(m+n), m,n<=4, x7 entry kinds'}),
         Workload('random', random_case, quick=3000, thorough=960000),
         Workload('insitu', insitu_case, quick=150, thorough=15000),
+        Workload('suite-soak', soak_case, quick=0, thorough=1, shardable=False),
     ],
     'shards': {'quick': 1, 'thorough': 16},
     'assumptions': ['numpy.linalg.norm / matmul are the trusted base of the oracle',
